@@ -626,7 +626,13 @@ static void hash_commitment_x4_verify(const picnic_instance_t* pp, const proof_r
 /**
  * Compute challenge from transform dependent hash - outputs {1,2 or 3}^t
  */
+#if defined(PICNIC_VERIF)
+void (*picnic_verif_challenge_zkbpp)(unsigned int num_rounds, uint8_t* ch) = NULL;
+#endif
 static void H3_compute(const picnic_instance_t* pp, uint8_t* hash, uint8_t* ch) {
+#if defined(PICNIC_VERIF)
+  uint8_t* const picnic_verif_ch_start = ch;
+#endif
   const unsigned int digest_size      = pp->digest_size;
   const unsigned int digest_size_bits = digest_size << 3;
 
@@ -650,6 +656,11 @@ static void H3_compute(const picnic_instance_t* pp, uint8_t* hash, uint8_t* ch) 
     }
     bit_idx += 2;
   }
+#if defined(PICNIC_VERIF)
+  if (picnic_verif_challenge_zkbpp) {
+    picnic_verif_challenge_zkbpp(pp->num_rounds, picnic_verif_ch_start);
+  }
+#endif
 }
 
 /**
